@@ -17,7 +17,7 @@ template <int Size, int Align>
 struct Bytes {
   alignas(Align) unsigned char b[Size];
 };
-// Cat: 0 trivial, 1 optout, 2 tr, 3 ntr, 4 throwmove, 5 throwasg
+// Cat: 0 trivial, 1 optout, 2 tr, 3 ntr, 4 throwmove, 5 throwasg, 6 ntrtd
 template <int Size, int Align, int Cat>
 struct S;
 template <int Size, int Align>
@@ -69,6 +69,15 @@ struct S<Size, Align, 5> {
   S &operator=(const S &o) { d = o.d; return *this; }
   S &operator=(S &&o) { d = o.d; return *this; }
   ~S() {}
+};
+template <int Size, int Align>
+struct S<Size, Align, 6> {  // user-provided copy / move operations, NO destructor: trivially destructible, not relocatable
+  Bytes<Size, Align> d;
+  S() {}
+  S(const S &o) : d(o.d) {}
+  S(S &&o) noexcept : d(o.d) {}
+  S &operator=(const S &o) { d = o.d; return *this; }
+  S &operator=(S &&o) noexcept { d = o.d; return *this; }
 };
 template <class T, unsigned long long N>
 struct FCV {
